@@ -50,6 +50,25 @@ func (fr *Frame) env(st *State, localsFirst bool) *CEnv {
 			}
 		}
 	}
+	env.visitedOf = func(m MapV, s *State) (*Term, bool) {
+		// the range state whose map reference is syntactically this map; prefer the most recent
+		var best *rangeState
+		for _, rs := range fr.rangeIt {
+			if rs.isMap && rs.mapv.Ref == m.Ref {
+				if best == nil || rs.cell.id > best.cell.id {
+					best = rs
+				}
+			}
+		}
+		if best == nil {
+			return nil, false
+		}
+		v, ok := s.Locals[best.cell]
+		if !ok {
+			return nil, false
+		}
+		return v.(Scalar).T, true
+	}
 	env.locals = func(name string, s *State) (Value, types.Type, bool) {
 		// latest-declared alloc with this name that has a cell in s
 		var best *ssa.Alloc
@@ -114,6 +133,20 @@ func pkgOfFunc(f *ssa.Function) *types.Package {
 func (fr *Frame) evalBool(x ast.Expr, st *State, src string) *Term {
 	env := fr.env(st, true)
 	return env.evalBool(x, src)
+}
+
+// tryEvalBool evaluates a contract expression, reporting ok=false if an identifier is not in scope here.
+func (fr *Frame) tryEvalBool(x ast.Expr, st *State, src string) (t *Term, ok bool) {
+	defer func() {
+		if r := recover(); r != nil {
+			if s, isS := r.(string); isS && strings.Contains(s, "undefined identifier") {
+				t, ok = nil, false
+				return
+			}
+			panic(r)
+		}
+	}()
+	return fr.evalBool(x, st, src), true
 }
 
 func (fr *Frame) evalContract(x ast.Expr, st *State, src string) (Value, types.Type) {
